@@ -352,7 +352,26 @@ GATE_VERSIONS = ["2.2.2", "2.2.3", "2.2.10", "2.5.4", "2.5.5", "2.5.10", "2.6.0"
                  "2.10.0", "10.0.0", "nobanner", "silent"]
 
 
-def check_gate(feature, version):
+# the same features called the other ways their signatures allow (quiet forms, keywords, other
+# argument values): the gate is a property of the feature, not of one way of calling it
+GATE_FORMS = {
+    "servo_timeout": {"quiet": lambda m, s, p: m.servo_timeout(p, 60000, 1, False),
+                      "nostate": lambda m, s, p: m.servo_timeout(p, 0),
+                      "nostate_quiet": lambda m, s, p: m.servo_timeout(p, 5000, None, False),
+                      "keywords": lambda m, s, p: m.servo_timeout(port_name=p, timeout_ms=1,
+                                                                  state=0, verbose=True)},
+    "queryVoltage": {"quiet": lambda m, s, p: m.queryVoltage(p, False),
+                     "keywords": lambda m, s, p: m.queryVoltage(port_name=p, verbose=True)},
+    "query_nickname": {"quiet": lambda m, s, p: s.query_nickname(p, False),
+                       "keywords": lambda m, s, p: s.query_nickname(port_name=p, verbose=False),
+                       "loud": lambda m, s, p: s.query_nickname(p, True)},
+    "write_nickname": {"empty": lambda m, s, p: s.write_nickname(p, ""),
+                       "long": lambda m, s, p: s.write_nickname(p, "A name of 16 chr"),
+                       "keywords": lambda m, s, p: s.write_nickname(port_name=p, nickname="B")},
+}
+
+
+def check_gate(feature, version, form=None):
     from plotink import ebb_motion, ebb_serial      # pylint: disable=import-outside-toplevel
     core.quiet_legacy_logger()
     gate = {g[0]: g for g in GATES}[feature]
@@ -368,8 +387,12 @@ def check_gate(feature, version):
              "query_nickname": lambda: ebb_serial.query_nickname(port),
              "write_nickname": lambda: ebb_serial.write_nickname(port, "Axi"),
              "reboot": lambda: ebb_serial.reboot(port)}
+    if form is not None:
+        form_call = GATE_FORMS[feature][form]
+        calls = {feature: lambda: form_call(ebb_motion, ebb_serial, port)}
+        feature = f"{feature}[{form}]"
     try:
-        calls[feature]()
+        calls[feature.split("[")[0]]()
     except Exception as exc:                # pylint: disable=broad-except
         return [f"{feature} against board version {version} raised {exc!r}"]
     sent = any(w.startswith(gate[2]) for w in port.write_attempts)
@@ -485,6 +508,13 @@ def run(ctx):
                 part.violation(f"gate:{feature}:{version}", msg,
                                {"kind": "gate", "feature": feature, "version": version})
             part.count("gate_cases")
+            for form in GATE_FORMS.get(feature, ()):
+                for msg in check_gate(feature, version, form):
+                    part.violation(f"gate:{feature}[{form}]:{version}", msg,
+                                   {"kind": "gate", "feature": feature, "version": version,
+                                    "form": form})
+                part.count("gate_cases")
+                part.count("gate_call_forms")
     cnt = part.counters
     if not cnt.get("accepted_supported_board"):
         raise AssertionError("vacuous: no execution accepted a conforming supported board")
@@ -559,7 +589,7 @@ def replay(case):
     if case["kind"] == "gate_history":
         return check_gate_history(*case["item"])
     if case["kind"] == "gate":
-        return check_gate(case["feature"], case["version"])
+        return check_gate(case["feature"], case["version"], case.get("form"))
     script = [tuple(s) if isinstance(s, list) else s for s in case["script"]]
     (viols, _o, _s, _c), _ch = run_vector(
         lambda ch: run_handshake(ch, script, case["given_name"]),
